@@ -203,7 +203,7 @@ class UTPM(Ring, RawAlgorithmsMixIn):
         if not isinstance(shp, tuple): shp = (shp,)
         if not isinstance(x_shp, tuple): x_shp = (x_shp,)
 
-        y = UTPM(numpy.zeros((D,P) + x_shp + shp, dtype=numpy.result_type(*[xi.data.dtype for xi in xr])))
+        y = UTPM(numpy.zeros((D,P) + x_shp + shp, dtype=numpy.result_type(float, *[xi.data.dtype if isinstance(xi, UTPM) else numpy.asarray(xi).dtype for xi in xr])))
 
         yr = UTPM( y.data.reshape((D,P) + (numpy.prod(x_shp, dtype=int),) + shp))
 
